@@ -1,9 +1,59 @@
 import GqlVerif.Props.C06
+/-!
+# C06 — soundness of `Resolve.resolve` against the declarative specification `Valid.validDoc`
+
+Main theorem (every schema, every document, no bound on sizes):
+
+    resolve_sound_partial : SchemaOk s = true → Resolve.resolve s d = .ok q → Valid.validDoc s false d = true
+
+`strict = false` is the rule catalogue minus "a composite field needs a sub-selection", which the code
+does not enforce (known finding `C06-no-selection`, `C06.no_selection_accepted`); the full statement
+`… → Valid.validDoc s true d = true` is **false** on that witness, hence the name `_partial`.
+Nothing else is missing: every other clause of `validDoc` is proved.
+
+Only hypothesis: `SchemaOk s` (decidable) = every union member is an object type
+(`C06.UnionsOfObjects`, which `condition_check_sound` already needed).  It is necessary:
+`schemaOk_needed` is a hand-made schema violating it on which `resolve` accepts an invalid document.
+Root ids / field ids in range, names distinct etc. are *not* assumed: a dangling id makes `resolve`
+panic (so it is not `.ok`), and name uniqueness is a consequence of `createRoots = .ok`
+(`createRoots_names`, `resolve_names_unique`).
+
+Layers (each a theorem of its own):
+
+* (a) structure — `objSel_corr` / `objSels_corr` / `unionSel_corr` / `unionSels_corr` (mutual structural
+  induction mirroring the four resolvers), packaged as `resolve_struct_sound`: successful resolution puts
+  the written selection and the resolved tree in the correspondence `Corr` / `CorrL` (field exists on
+  the parent by `Valid.lookupField`, leaf fields and `__typename` have no sub-selection, spreads name a
+  known fragment, inline type conditions name a schema type).
+* (b) what the first two phases build — `createRoots_ok`, `fold_ok`, `resolved_of_phases`: the final
+  query's fragment table agrees index by index with `Valid.fragTable d` (`TableOk`: `findFragment` vs
+  `Valid.findFrag`, `on` types, stored selections `CorrL`-related to the written ones), and every
+  definition of `d` owns exactly one entry holding its resolved selection.
+* (c) transfer of the validators' verdicts along `CorrL` —
+  `hasTypename_of_contains` (`containsTypenameAux` ⇒ `Valid.hasTypename`, same fuel),
+  `validSel_of` / `validSels_of` (`typeConditions` + `fieldsHaveTypename` ⇒ `Valid.validSels`, using
+  `C06.condition_check_sound`),
+  `sub_keys` (`rootFieldCount … = 1` ⇒ exactly one response key in `Valid.rootKeys`).  The last one
+  is a correctness proof of the depth-first count with a *shared* visited set: `walk_sim` replays the
+  walk on the document (`qwalk`), `qwalk_post` shows that with the code's fuel `depthFuel` the walk is
+  complete (its result is closed under spreads and covers every root field), `rootKeys_sub_of_closed`
+  and `qwalk_sound` compare it with the specification's expansion in both directions.
+* (d) assembly — `validDef_of_resolved`, `resolve_sound_partial`, `invalid_rejected`.
+
+Found while proving (reported; the first two repaired in the code and mirrored in the model, the third
+corrected in the specification; kept as regression examples at the end of the file):
+duplicate fragment names and duplicate operation names were accepted and made `resolve` validate a body
+against the wrong parent type; `Valid.rootKeys` had a depth-independent fuel.
+-/
 namespace GqlVerif
 namespace C06Sound
 open Resolve
 
+/-! ## (a) the correspondence between a written selection and its resolved form -/
+
 mutual
+/-- `Corr s ff p x r`: the written selection `x`, read against the parent type `p`, resolves to `r`
+    (`ff` maps a spread name to the index of its fragment) -/
 inductive Corr (s : Schema) (ff : String → Option Nat) : TypeId → QSel → Sel → Prop
   | typename {p alias name} : name = "__typename" → Corr s ff p (.field alias name []) .typename
   | field {p alias name sub fid f rs} : name ≠ "__typename" → Valid.lookupField s p name = some f →
@@ -269,6 +319,8 @@ mutual
         exact .cons (unionSel_corr s q p x a ha) (unionSels_corr s q p xs rs' hrs')
 end
 
+/-! ## inversion of the validators -/
+
 theorem bind_ok {α β} {x : Outcome α} {f : α → Outcome β} {b : β} (h : (x >>= f) = .ok b) :
     ∃ a, x = .ok a ∧ f a = .ok b := by
   cases x with
@@ -334,6 +386,8 @@ theorem fhtList_cons {s : Schema} {q : Query} {x xs}
   unfold fieldsHaveTypenameList at h
   obtain ⟨u, hu, h⟩ := bind_ok h
   exact ⟨hu, h⟩
+
+/-! ## (c) transfer of `__typename` presence and of the type-condition check -/
 
 /-- the resolved fragment table `qF.fragments` corresponds, index by index, to the document's fragment
     table `ft`: a spread name resolves (through `ff`) to the index of the fragment that `Valid.findFrag`
@@ -460,6 +514,8 @@ mutual
         rw [validSel_of hs htab x p r hx hp h1 g1, validSels_of hs htab xs p rs hxs hp h2 g2]
         rfl
 end
+
+/-! ## (b) what `create_roots` and the fold of `resolve_fragment` / `resolve_operation` build -/
 
 theorem resolveSelection_corr {s : Schema} {q : Query} {t : TypeId} {sels : List QSel} {rs : List Sel}
     (h : resolveSelection s q t sels = .ok rs) :
@@ -972,6 +1028,8 @@ theorem fold_ok (s : Schema) : ∀ (rest : QDoc) (q qF : Query), rest.foldlM (re
           refine ⟨n', root', o', id', op0, rs', h1, h2, h3, h4, ?_, h6, h7⟩
           simpa [List.getElem?_set, hne] using h5
 
+/-! ## the three validators, per fragment / operation -/
+
 theorem forIn_ok {α} (body : α → PUnit → Outcome (ForInStep PUnit))
     (hy : ∀ a r, body a PUnit.unit = .ok r → r = .yield PUnit.unit) :
     ∀ (l : List α) (u : PUnit), forIn l PUnit.unit body = .ok u → ∀ a ∈ l, body a PUnit.unit = .ok (.yield PUnit.unit)
@@ -1087,6 +1145,928 @@ theorem countP_cons_visited (fid : Nat) (V : List Nat) (hV : fid ∉ V) : ∀ (l
 theorem unvisited_cons {nf fid : Nat} {V : List Nat} (hlt : fid < nf) (hV : fid ∉ V) :
     unvisited nf (fid :: V) + 1 ≤ unvisited nf V :=
   countP_cons_visited fid V hV _ (List.mem_range.mpr hlt)
+
+abbrev FT := List (String × String × List QSel)
+
+/-- index of the fragment a spread name denotes, from the document's fragment table only -/
+def ftff (ft : FT) : String → Option Nat := ffOf (ft.map (·.1))
+
+theorem find?_eq_findIdx?_bind {α} (p : α → Bool) : ∀ (l : List α), l.find? p = (l.findIdx? p).bind (l[·]?)
+  | [] => rfl
+  | a :: l => by
+    rw [List.find?_cons, List.findIdx?_cons]
+    cases hp : p a with
+    | true => simp
+    | false =>
+      simp only [Bool.false_eq_true, if_false]
+      rw [find?_eq_findIdx?_bind p l]
+      cases l.findIdx? p <;> simp
+
+theorem ftff_some {ft : FT} {n : String} {fid : Nat} (h : ftff ft n = some fid) :
+    ∃ e, ft[fid]? = some e ∧ e.1 = n ∧ Valid.findFrag ft n = some e.2 := by
+  have h1 := ffOf_some h
+  rw [List.getElem?_map] at h1
+  cases he : ft[fid]? with
+  | none => simp [he] at h1
+  | some e =>
+    simp only [he, Option.map_some, Option.some.injEq] at h1
+    refine ⟨e, rfl, h1, ?_⟩
+    unfold Valid.findFrag
+    rw [find?_eq_findIdx?_bind]
+    have : ft.findIdx? (fun x => x.1 == n) = some fid := by
+      have := h
+      unfold ftff ffOf at this
+      rw [List.findIdx?_map] at this
+      exact this
+    rw [this]
+    simp [he]
+
+theorem ftff_of_findFrag {ft : FT} {n : String} {p : String × List QSel} (h : Valid.findFrag ft n = some p) :
+    ∃ fid e, ftff ft n = some fid ∧ ft[fid]? = some e ∧ e.2 = p := by
+  unfold Valid.findFrag at h
+  rw [find?_eq_findIdx?_bind] at h
+  cases hi : ft.findIdx? (fun x => x.1 == n) with
+  | none => simp [hi] at h
+  | some fid =>
+    simp only [hi, Option.bind_some] at h
+    cases he : ft[fid]? with
+    | none => simp [he] at h
+    | some e =>
+      simp only [he, Option.map_some, Option.some.injEq] at h
+      refine ⟨fid, e, ?_, he, h⟩
+      unfold ftff ffOf
+      rw [List.findIdx?_map]
+      exact hi
+
+/-- the walk of `count_root_fields` replayed on the written document, collecting response keys -/
+def qstep (ft : FT) (rec : List Nat → List QSel → List String × List Nat)
+    (acc : List String × List Nat) : QSel → List String × List Nat
+  | .field alias name _ => (acc.1 ++ [alias.getD name], acc.2)
+  | .inline _ sub => let r := rec acc.2 sub; (acc.1 ++ r.1, r.2)
+  | .spread n =>
+    match ftff ft n with
+    | none => acc
+    | some fid =>
+      if acc.2.contains fid then acc else
+      match ft[fid]? with
+      | none => acc
+      | some e => let r := rec (fid :: acc.2) e.2.2; (acc.1 ++ r.1, r.2)
+
+def qwalk (ft : FT) : Nat → List Nat → List QSel → List String × List Nat
+  | 0, V, _ => ([], V)
+  | fuel+1, V, sels => sels.foldl (qstep ft (fun V' s' => qwalk ft fuel V' s')) ([], V)
+
+/-- monotonicity of one step and of the fold -/
+theorem qstep_mono (ft : FT) {rec} (hrec : ∀ V sels, ∀ v ∈ V, v ∈ (rec V sels).2) (acc) (x : QSel) :
+    (∀ k ∈ acc.1, k ∈ (qstep ft rec acc x).1) ∧ (∀ v ∈ acc.2, v ∈ (qstep ft rec acc x).2) := by
+  cases x with
+  | field a n sub => exact ⟨fun k hk => List.mem_append_left _ hk, fun v hv => hv⟩
+  | inline on sub =>
+    simp only [qstep]
+    exact ⟨fun k hk => List.mem_append_left _ hk, fun v hv => hrec _ _ v hv⟩
+  | spread n =>
+    simp only [qstep]
+    split
+    · exact ⟨fun _ h => h, fun _ h => h⟩
+    · split
+      · exact ⟨fun _ h => h, fun _ h => h⟩
+      · split
+        · exact ⟨fun _ h => h, fun _ h => h⟩
+        · exact ⟨fun k hk => List.mem_append_left _ hk, fun v hv => hrec _ _ v (List.mem_cons_of_mem _ hv)⟩
+
+theorem qfold_mono (ft : FT) {rec} (hrec : ∀ V sels, ∀ v ∈ V, v ∈ (rec V sels).2) :
+    ∀ (xs : List QSel) (acc), (∀ k ∈ acc.1, k ∈ (xs.foldl (qstep ft rec) acc).1) ∧
+      (∀ v ∈ acc.2, v ∈ (xs.foldl (qstep ft rec) acc).2)
+  | [], acc => by simp
+  | x :: xs, acc => by
+    rw [List.foldl_cons]
+    have h1 := qstep_mono ft hrec acc x
+    have h2 := qfold_mono ft hrec xs (qstep ft rec acc x)
+    exact ⟨fun k hk => h2.1 k (h1.1 k hk), fun v hv => h2.2 v (h1.2 v hv)⟩
+
+theorem qwalk_mono (ft : FT) : ∀ (fuel : Nat) (V : List Nat) (sels : List QSel), ∀ v ∈ V, v ∈ (qwalk ft fuel V sels).2
+  | 0, V, sels => by simp [qwalk]
+  | fuel+1, V, sels => by
+    unfold qwalk
+    exact (qfold_mono ft (fun V' s' => qwalk_mono ft fuel V' s') sels ([], V)).2
+
+/-- `x` is a field or a spread of the selection set, possibly inside inline fragments -/
+inductive Dir : List QSel → QSel → Prop
+  | field {sels a n sub} : QSel.field a n sub ∈ sels → Dir sels (.field a n sub)
+  | spread {sels n} : QSel.spread n ∈ sels → Dir sels (.spread n)
+  | inl {sels on sub x} : QSel.inline on sub ∈ sels → Dir sub x → Dir sels x
+
+/-- every root field of `sels` has its key in `ks`, every spread of `sels` leads into `C` -/
+def Cov (ft : FT) (ks : List String) (C : List Nat) (sels : List QSel) : Prop :=
+  (∀ a n sub, Dir sels (.field a n sub) → a.getD n ∈ ks) ∧
+  (∀ n fid, Dir sels (.spread n) → ftff ft n = some fid → fid ∈ C)
+
+def CovI (ft : FT) (ks : List String) (C : List Nat) : QSel → Prop
+  | .field a n _ => a.getD n ∈ ks
+  | .spread n => ∀ fid, ftff ft n = some fid → fid ∈ C
+  | .inline _ sub => Cov ft ks C sub
+
+theorem cov_of_items {ft : FT} {ks C sels} (h : ∀ x ∈ sels, CovI ft ks C x) : Cov ft ks C sels := by
+  constructor
+  · intro a n sub hd
+    cases hd with
+    | field hm => exact h _ hm
+    | inl hm hd' => exact (h _ hm).1 a n sub hd'
+  · intro n fid hd hff
+    cases hd with
+    | spread hm => exact h _ hm fid hff
+    | inl hm hd' => exact (h _ hm).2 n fid hd' hff
+
+theorem items_of_cov {ft : FT} {ks C sels} (h : Cov ft ks C sels) : ∀ x ∈ sels, CovI ft ks C x := by
+  intro x hx
+  cases x with
+  | field a n sub => exact h.1 a n sub (.field hx)
+  | spread n => exact fun fid hff => h.2 n fid (.spread hx) hff
+  | inline on sub =>
+    exact ⟨fun a n s hd => h.1 a n s (.inl hx hd), fun n fid hd hff => h.2 n fid (.inl hx hd) hff⟩
+
+theorem Cov.mono {ft : FT} {ks ks' C C' sels} (hk : ∀ k ∈ ks, k ∈ ks') (hc : ∀ c ∈ C, c ∈ C')
+    (h : Cov ft ks C sels) : Cov ft ks' C' sels :=
+  ⟨fun a n sub hd => hk _ (h.1 a n sub hd), fun n fid hd hff => hc _ (h.2 n fid hd hff)⟩
+
+theorem CovI.mono {ft : FT} {ks ks' C C' x} (hk : ∀ k ∈ ks, k ∈ ks') (hc : ∀ c ∈ C, c ∈ C')
+    (h : CovI ft ks C x) : CovI ft ks' C' x := by
+  cases x with
+  | field a n sub => exact hk _ h
+  | spread n => exact fun fid hff => hc _ (h fid hff)
+  | inline on sub => exact Cov.mono hk hc h
+
+/-- post-condition of a walk started with visited set `V` -/
+def Post (ft : FT) (V : List Nat) (sels : List QSel) (r : List String × List Nat) : Prop :=
+  Cov ft r.1 r.2 sels ∧ ∀ g ∈ r.2, g ∉ V → ∀ e, ft[g]? = some e → Cov ft r.1 r.2 e.2.2
+
+theorem qselDepth_le_of_mem : ∀ {sels : List QSel} {x : QSel}, x ∈ sels → Valid.qselDepth x ≤ Valid.qselsDepth sels
+  | [], _, h => by simp at h
+  | y :: ys, x, h => by
+    unfold Valid.qselsDepth
+    rcases List.mem_cons.mp h with rfl | h
+    · exact Nat.le_max_left _ _
+    · exact Nat.le_trans (qselDepth_le_of_mem h) (Nat.le_max_right _ _)
+
+theorem qfold_post {ft : FT} {K fuel : Nat} {rec : List Nat → List QSel → List String × List Nat}
+    (hK : ∀ e ∈ ft, Valid.qselsDepth e.2.2 + 1 ≤ K)
+    (hmono : ∀ V sels, ∀ v ∈ V, v ∈ (rec V sels).2)
+    (hrec : ∀ V sels, unvisited ft.length V * K + Valid.qselsDepth sels + 1 ≤ fuel → Post ft V sels (rec V sels)) :
+    ∀ (xs : List QSel) (acc : List String × List Nat),
+      (∀ x ∈ xs, unvisited ft.length acc.2 * K + Valid.qselDepth x ≤ fuel) →
+      (∀ x ∈ xs, CovI ft (xs.foldl (qstep ft rec) acc).1 (xs.foldl (qstep ft rec) acc).2 x) ∧
+      (∀ g ∈ (xs.foldl (qstep ft rec) acc).2, g ∉ acc.2 → ∀ e, ft[g]? = some e →
+        Cov ft (xs.foldl (qstep ft rec) acc).1 (xs.foldl (qstep ft rec) acc).2 e.2.2)
+  | [], acc, _ => by
+    simp only [List.foldl_nil]
+    exact ⟨fun x hx => by simp at hx, fun g hg hn => absurd hg hn⟩
+  | x :: xs, acc, had => by
+    rw [List.foldl_cons]
+    have hx := had x List.mem_cons_self
+    -- the step
+    have hstep : CovI ft (qstep ft rec acc x).1 (qstep ft rec acc x).2 x ∧
+        (∀ g ∈ (qstep ft rec acc x).2, g ∉ acc.2 → ∀ e, ft[g]? = some e →
+          Cov ft (qstep ft rec acc x).1 (qstep ft rec acc x).2 e.2.2) := by
+      cases x with
+      | field a n sub =>
+        simp only [qstep, CovI]
+        exact ⟨by simp, fun g hg hn => absurd hg hn⟩
+      | inline on sub =>
+        simp only [qstep, CovI]
+        have hp := hrec acc.2 sub (by simp only [Valid.qselDepth] at hx; omega)
+        refine ⟨hp.1.mono (fun k hk => List.mem_append_right _ hk) (fun _ h => h), ?_⟩
+        intro g hg hn e he
+        exact (hp.2 g hg hn e he).mono (fun k hk => List.mem_append_right _ hk) (fun _ h => h)
+      | spread n =>
+        simp only [qstep, CovI]
+        split
+        · rename_i hnone
+          exact ⟨fun fid hff => (by rw [hnone] at hff; cases hff), fun g hg hn => absurd hg hn⟩
+        · rename_i fid hfid
+          split
+          · rename_i hvis
+            refine ⟨fun fid' hff => ?_, fun g hg hn => absurd hg hn⟩
+            rw [hfid] at hff; cases hff
+            simpa using hvis
+          · rename_i hvis
+            have hvis' : fid ∉ acc.2 := by simpa using hvis
+            obtain ⟨e, he, _, _⟩ := ftff_some hfid
+            simp only [he]
+            have hlt : fid < ft.length := (List.getElem?_eq_some_iff.mp he).1
+            have hu := unvisited_cons hlt hvis'
+            have hKe := hK e (List.mem_of_getElem? he)
+            have hmul : (unvisited ft.length (fid :: acc.2) + 1) * K ≤ unvisited ft.length acc.2 * K :=
+              Nat.mul_le_mul_right K hu
+            rw [Nat.succ_mul] at hmul
+            have hp := hrec (fid :: acc.2) e.2.2 (by simp only [Valid.qselDepth] at hx; omega)
+            refine ⟨fun fid' hff => ?_, ?_⟩
+            · rw [hfid] at hff; cases hff
+              exact hmono _ _ fid List.mem_cons_self
+            · intro g hg hn e' he'
+              by_cases hgf : g = fid
+              · subst hgf
+                rw [he] at he'; cases he'
+                exact hp.1.mono (fun k hk => List.mem_append_right _ hk) (fun _ h => h)
+              · have : g ∉ fid :: acc.2 := by
+                  intro hm
+                  rcases List.mem_cons.mp hm with h | h
+                  · exact hgf h
+                  · exact hn h
+                exact (hp.2 g hg this e' he').mono (fun k hk => List.mem_append_right _ hk) (fun _ h => h)
+    have hm1 := qstep_mono ft hmono acc x
+    have hm2 := qfold_mono ft hmono xs (qstep ft rec acc x)
+    have ih := qfold_post hK hmono hrec xs (qstep ft rec acc x) (by
+      intro y hy
+      have := had y (List.mem_cons_of_mem _ hy)
+      have hu := unvisited_mono (nf := ft.length) hm1.2
+      have := Nat.mul_le_mul_right K hu
+      omega)
+    constructor
+    · intro y hy
+      rcases List.mem_cons.mp hy with rfl | hy
+      · exact hstep.1.mono hm2.1 hm2.2
+      · exact ih.1 y hy
+    · intro g hg hn e he
+      by_cases hgs : g ∈ (qstep ft rec acc x).2
+      · exact (hstep.2 g hgs hn e he).mono hm2.1 hm2.2
+      · exact ih.2 g hg hgs e he
+
+theorem qwalk_post {ft : FT} {K : Nat} (hK : ∀ e ∈ ft, Valid.qselsDepth e.2.2 + 1 ≤ K) :
+    ∀ (fuel : Nat) (V : List Nat) (sels : List QSel),
+      unvisited ft.length V * K + Valid.qselsDepth sels + 1 ≤ fuel → Post ft V sels (qwalk ft fuel V sels)
+  | 0, V, sels, h => by omega
+  | fuel+1, V, sels, h => by
+    unfold qwalk
+    have := qfold_post hK (fun V' s' => qwalk_mono ft fuel V' s') (fun V' s' => qwalk_post hK fuel V' s')
+      sels ([], V) (by
+        intro x hx
+        have := qselDepth_le_of_mem hx
+        simp only
+        omega)
+    exact ⟨cov_of_items this.1, this.2⟩
+
+/-- one item of `Valid.rootKeys` -/
+def rkItem (ft : FT) (G : Nat) : QSel → List String
+  | .field alias name _ => [alias.getD name]
+  | .spread n => match Valid.findFrag ft n with
+    | some (_, fsels) => Valid.rootKeys ft G fsels
+    | none => []
+  | .inline _ sub => Valid.rootKeys ft G sub
+
+theorem rootKeys_succ (ft : FT) (G : Nat) (sels : List QSel) :
+    Valid.rootKeys ft (G + 1) sels = sels.flatMap (rkItem ft G) := by
+  unfold Valid.rootKeys
+  congr
+
+/-- every key the specification's expansion finds is one the walk has collected, once the walk's
+    result is closed under spreads -/
+theorem rootKeys_sub_of_closed {ft : FT} {ks : List String} {C : List Nat}
+    (hcl : ∀ g ∈ C, ∀ e, ft[g]? = some e → Cov ft ks C e.2.2) :
+    ∀ (G : Nat) (sels : List QSel), Cov ft ks C sels → ∀ k ∈ Valid.rootKeys ft G sels, k ∈ ks
+  | 0, sels, _, k, hk => by simp [Valid.rootKeys] at hk
+  | G+1, sels, hc, k, hk => by
+    rw [rootKeys_succ, List.mem_flatMap] at hk
+    obtain ⟨x, hx, hkx⟩ := hk
+    have hi := items_of_cov hc x hx
+    cases x with
+    | field a n sub =>
+      simp only [rkItem, List.mem_singleton] at hkx
+      subst hkx; exact hi
+    | inline on sub => exact rootKeys_sub_of_closed hcl G sub hi k hkx
+    | spread n =>
+      simp only [rkItem] at hkx
+      split at hkx
+      · rename_i on fsels hff
+        obtain ⟨fid, e, h1, h2, h3⟩ := ftff_of_findFrag hff
+        have hfc : fid ∈ C := hi fid h1
+        have := hcl fid hfc e h2
+        rw [h3] at this
+        exact rootKeys_sub_of_closed hcl G fsels this k hkx
+      · simp at hkx
+
+/-- every key the walk collects is found by the specification's expansion, given enough fuel there -/
+theorem qfold_sound {ft : FT} {K G : Nat} {rec : List Nat → List QSel → List String × List Nat}
+    (hK : ∀ e ∈ ft, Valid.qselsDepth e.2.2 + 1 ≤ K)
+    (hmono : ∀ V sels, ∀ v ∈ V, v ∈ (rec V sels).2)
+    (hrec : ∀ V sels, unvisited ft.length V * K + Valid.qselsDepth sels + 1 ≤ G →
+      ∀ k ∈ (rec V sels).1, k ∈ Valid.rootKeys ft G sels) :
+    ∀ (xs : List QSel) (acc : List String × List Nat),
+      (∀ x ∈ xs, unvisited ft.length acc.2 * K + Valid.qselDepth x ≤ G) →
+      ∀ k ∈ (xs.foldl (qstep ft rec) acc).1, k ∈ acc.1 ∨ ∃ x ∈ xs, k ∈ rkItem ft G x
+  | [], acc, _, k, hk => Or.inl hk
+  | x :: xs, acc, had, k, hk => by
+    rw [List.foldl_cons] at hk
+    have hx := had x List.mem_cons_self
+    have hm1 := qstep_mono ft hmono acc x
+    have ih := qfold_sound hK hmono hrec xs (qstep ft rec acc x) (by
+      intro y hy
+      have := had y (List.mem_cons_of_mem _ hy)
+      have hu := unvisited_mono (nf := ft.length) hm1.2
+      have := Nat.mul_le_mul_right K hu
+      omega) k hk
+    rcases ih with ih | ⟨y, hy, hky⟩
+    · -- k was added by the step for x
+      have : k ∈ acc.1 ∨ k ∈ rkItem ft G x := by
+        cases x with
+        | field a n sub =>
+          simp only [qstep, List.mem_append, List.mem_singleton] at ih
+          rcases ih with h | h
+          · exact Or.inl h
+          · right; simp [rkItem, h]
+        | inline on sub =>
+          simp only [qstep, List.mem_append] at ih
+          rcases ih with h | h
+          · exact Or.inl h
+          · right
+            simp only [rkItem]
+            exact hrec acc.2 sub (by simp only [Valid.qselDepth] at hx; omega) k h
+        | spread n =>
+          simp only [qstep] at ih
+          split at ih
+          · exact Or.inl ih
+          · rename_i fid hfid
+            split at ih
+            · exact Or.inl ih
+            · rename_i hvis
+              have hvis' : fid ∉ acc.2 := by simpa using hvis
+              obtain ⟨e, he, _, hfind⟩ := ftff_some hfid
+              simp only [he, List.mem_append] at ih
+              rcases ih with h | h
+              · exact Or.inl h
+              · right
+                have hlt : fid < ft.length := (List.getElem?_eq_some_iff.mp he).1
+                have hu := unvisited_cons hlt hvis'
+                have hKe := hK e (List.mem_of_getElem? he)
+                have hmul : (unvisited ft.length (fid :: acc.2) + 1) * K ≤ unvisited ft.length acc.2 * K :=
+                  Nat.mul_le_mul_right K hu
+                rw [Nat.succ_mul] at hmul
+                simp only [rkItem, hfind]
+                exact hrec (fid :: acc.2) e.2.2 (by simp only [Valid.qselDepth] at hx; omega) k h
+      rcases this with h | h
+      · exact Or.inl h
+      · exact Or.inr ⟨x, List.mem_cons_self, h⟩
+    · exact Or.inr ⟨y, List.mem_cons_of_mem _ hy, hky⟩
+
+theorem qwalk_sound {ft : FT} {K : Nat} (hK : ∀ e ∈ ft, Valid.qselsDepth e.2.2 + 1 ≤ K) :
+    ∀ (fuel G : Nat) (V : List Nat) (sels : List QSel),
+      unvisited ft.length V * K + Valid.qselsDepth sels + 1 ≤ G →
+      ∀ k ∈ (qwalk ft fuel V sels).1, k ∈ Valid.rootKeys ft G sels
+  | 0, G, V, sels, _, k, hk => by simp [qwalk] at hk
+  | fuel+1, 0, V, sels, h, k, hk => by omega
+  | fuel+1, G+1, V, sels, h, k, hk => by
+    unfold qwalk at hk
+    have := qfold_sound (G := G) hK (fun V' s' => qwalk_mono ft fuel V' s')
+      (fun V' s' hh => qwalk_sound hK fuel G V' s' hh) sels ([], V) (by
+        intro x hx
+        have := qselDepth_le_of_mem hx
+        simp only
+        omega) k hk
+    rcases this with h | ⟨x, hx, hkx⟩
+    · simp at h
+    · rw [rootKeys_succ, List.mem_flatMap]
+      exact ⟨x, hx, hkx⟩
+
+/-- the body of the fold in `Resolve.rootFieldCount` -/
+def cstep (q : Query) (rec : List Nat → List Sel → Nat × List Nat) (acc : Nat × List Nat) : Sel → Nat × List Nat
+  | .field _ _ _ => (acc.1 + 1, acc.2)
+  | .typename => (acc.1 + 1, acc.2)
+  | .inline _ sub =>
+    let r := rec acc.2 sub
+    (acc.1 + r.1, r.2)
+  | .spread fid =>
+    if acc.2.contains fid then acc else
+    match q.fragments[fid]? with
+    | none => acc
+    | some f =>
+      let r := rec (fid :: acc.2) f.sels
+      (acc.1 + r.1, r.2)
+
+theorem rootFieldCount_succ (q : Query) (fuel : Nat) (V : List Nat) (sels : List Sel) :
+    rootFieldCount q (fuel + 1) V sels = sels.foldl (cstep q (fun V' s' => rootFieldCount q fuel V' s')) (0, V) := by
+  conv => lhs; unfold rootFieldCount
+  congr
+
+theorem table_frag {s : Schema} {ft : FT} {qF : Query} (htab : TableOk s (ftff ft) ft qF) {n : String} {fid : Nat}
+    (hff : ftff ft n = some fid) :
+    ∃ f e, qF.fragments[fid]? = some f ∧ ft[fid]? = some e ∧ s.findType e.2.1 = some f.on ∧
+      CorrL s (ftff ft) f.on e.2.2 f.sels := by
+  obtain ⟨f, on, fsels, h1, h2, h3, h4⟩ := htab.find n fid hff
+  obtain ⟨e, he, _, hfind⟩ := ftff_some hff
+  rw [h2] at hfind
+  have : e.2 = (on, fsels) := (Option.some.inj hfind).symm
+  refine ⟨f, e, h1, he, ?_, ?_⟩
+  · rw [this]; exact h3
+  · rw [this]; exact h4
+
+theorem fold_sim {s : Schema} {ft : FT} {qF : Query} (htab : TableOk s (ftff ft) ft qF)
+    {recC : List Nat → List Sel → Nat × List Nat} {recQ : List Nat → List QSel → List String × List Nat}
+    (hrec : ∀ V p sels rs, CorrL s (ftff ft) p sels rs → recC V rs = ((recQ V sels).1.length, (recQ V sels).2)) :
+    ∀ (xs : List QSel) (rs : List Sel) (p : TypeId), CorrL s (ftff ft) p xs rs →
+      ∀ (acc : Nat × List Nat) (accK : List String × List Nat), acc.1 = accK.1.length → acc.2 = accK.2 →
+      (rs.foldl (cstep qF recC) acc).1 = (xs.foldl (qstep ft recQ) accK).1.length ∧
+      (rs.foldl (cstep qF recC) acc).2 = (xs.foldl (qstep ft recQ) accK).2
+  | [], rs, p, hc, acc, accK, h1, h2 => by
+    cases hc
+    exact ⟨h1, h2⟩
+  | x :: xs, rs, p, hc, acc, accK, h1, h2 => by
+    cases hc with
+    | cons hx hxs =>
+      rename_i r rs
+      rw [List.foldl_cons, List.foldl_cons]
+      have hstep : (cstep qF recC acc r).1 = (qstep ft recQ accK x).1.length ∧
+          (cstep qF recC acc r).2 = (qstep ft recQ accK x).2 := by
+        cases hx with
+        | typename hn => simp [cstep, qstep, h1, h2]
+        | field => simp [cstep, qstep, h1, h2]
+        | inline ht hleaf hsub =>
+          simp only [cstep, qstep]
+          rw [h2, hrec _ _ _ _ hsub]
+          simp [h1]
+        | spread hff =>
+          rename_i n fid
+          obtain ⟨f, e, hf, he, _, hcf⟩ := table_frag htab hff
+          simp only [cstep, qstep, hff, hf, he, h2]
+          split
+          · exact ⟨h1, h2⟩
+          · rw [hrec _ _ _ _ hcf]
+            simp [h1]
+      exact fold_sim htab hrec xs rs p hxs _ _ hstep.1 hstep.2
+
+theorem walk_sim {s : Schema} {ft : FT} {qF : Query} (htab : TableOk s (ftff ft) ft qF) :
+    ∀ (fuel : Nat) (V : List Nat) (p : TypeId) (sels : List QSel) (rs : List Sel), CorrL s (ftff ft) p sels rs →
+      rootFieldCount qF fuel V rs = ((qwalk ft fuel V sels).1.length, (qwalk ft fuel V sels).2)
+  | 0, V, p, sels, rs, hc => by simp [rootFieldCount, qwalk]
+  | fuel+1, V, p, sels, rs, hc => by
+    rw [rootFieldCount_succ]
+    unfold qwalk
+    have := fold_sim htab (fun V' p' s' r' hc' => walk_sim htab fuel V' p' s' r' hc') sels rs p hc (0, V) ([], V) rfl rfl
+    exact Prod.ext this.1 this.2
+
+mutual
+  theorem corr_depth {s : Schema} {ff} : ∀ (x : QSel) (p : TypeId) (r : Sel), Corr s ff p x r →
+      selDepth' r = Valid.qselDepth x
+    | .field a n sub, p, r, hc => by
+      cases hc with
+      | typename => simp [selDepth', Valid.qselDepth, Valid.qselsDepth]
+      | field _ _ _ _ hsub =>
+        simp only [selDepth', Valid.qselDepth]
+        rw [corrL_depth sub _ _ hsub]
+    | .inline on sub, p, r, hc => by
+      cases hc with
+      | inline _ _ hsub =>
+        simp only [selDepth', Valid.qselDepth]
+        rw [corrL_depth sub _ _ hsub]
+    | .spread n, p, r, hc => by
+      cases hc with
+      | spread => simp [selDepth', Valid.qselDepth]
+  theorem corrL_depth {s : Schema} {ff} : ∀ (xs : List QSel) (p : TypeId) (rs : List Sel), CorrL s ff p xs rs →
+      selsDepth' rs = Valid.qselsDepth xs
+    | [], p, rs, hc => by cases hc; simp [selsDepth', Valid.qselsDepth]
+    | x :: xs, p, rs, hc => by
+      cases hc with
+      | cons hx hxs =>
+        simp only [selsDepth', Valid.qselsDepth]
+        rw [corr_depth x _ _ hx, corrL_depth xs _ _ hxs]
+end
+
+theorem foldl_max_ge (l : List Nat) : ∀ (init : Nat), init ≤ l.foldl max init ∧ ∀ x ∈ l, x ≤ l.foldl max init := by
+  induction l with
+  | nil => intro init; simp
+  | cons a l ih =>
+    intro init
+    rw [List.foldl_cons]
+    have := ih (max init a)
+    refine ⟨by omega, ?_⟩
+    intro x hx
+    rcases List.mem_cons.mp hx with rfl | hx
+    · have := this.1; omega
+    · exact this.2 x hx
+
+theorem eraseDups_const {k : String} : ∀ (L : List String), (∀ x ∈ L, x = k) → L ≠ [] → L.eraseDups = [k]
+  | [], _, h => absurd rfl h
+  | a :: as, hall, _ => by
+    rw [List.eraseDups_cons]
+    have ha : a = k := hall a List.mem_cons_self
+    subst ha
+    have : List.filter (fun b => !b == a) as = [] := by
+      rw [List.filter_eq_nil_iff]
+      intro x hx
+      simp [hall x (List.mem_cons_of_mem _ hx)]
+    rw [this]
+    simp
+
+theorem unvisited_le (nf : Nat) (V : List Nat) : unvisited nf V ≤ nf := by
+  unfold unvisited
+  have := List.countP_le_length (p := fun i => !V.contains i) (l := List.range nf)
+  simpa using this
+
+/-- the subscription clause: a count of exactly one root field means the specification's expansion
+    finds exactly one response key -/
+theorem sub_keys {s : Schema} {ft : FT} {qF : Query} (htab : TableOk s (ftff ft) ft qF)
+    {p : TypeId} {sels : List QSel} {rs : List Sel} (hc : CorrL s (ftff ft) p sels rs)
+    {dq D : Nat}
+    (hdq : ∀ e ∈ ft, Valid.qselsDepth e.2.2 ≤ dq) (hdq' : Valid.qselsDepth sels ≤ dq)
+    (hD : ∀ e ∈ ft, Valid.qselsDepth e.2.2 ≤ D) (hD' : Valid.qselsDepth sels ≤ D)
+    (hcount : (rootFieldCount qF ((ft.length + 1) * (dq + 2) + 1) [] rs).1 = 1) :
+    (Valid.rootKeys ft ((ft.length + 1) * (D + 1) + 1) sels).eraseDups.length = 1 := by
+  rw [walk_sim htab _ _ _ _ _ hc] at hcount
+  simp only at hcount
+  have hu := unvisited_le ft.length []
+  -- completeness of the walk with the code's fuel
+  have hpost := qwalk_post (ft := ft) (K := dq + 1) (fun e he => by have := hdq e he; omega)
+    ((ft.length + 1) * (dq + 2) + 1) [] sels (by
+      have := Nat.mul_le_mul_right (dq + 1) hu
+      simp only [Nat.add_mul, Nat.mul_add] at this ⊢
+      omega)
+  -- soundness of the walk against the specification's fuel
+  have hsound := qwalk_sound (ft := ft) (K := D + 1) (fun e he => by have := hD e he; omega)
+    ((ft.length + 1) * (dq + 2) + 1) ((ft.length + 1) * (D + 1) + 1) [] sels (by
+      have := Nat.mul_le_mul_right (D + 1) hu
+      simp only [Nat.add_mul, Nat.mul_add] at this ⊢
+      omega)
+  generalize qwalk ft ((ft.length + 1) * (dq + 2) + 1) [] sels = w at hcount hpost hsound
+  obtain ⟨ks, C⟩ := w
+  simp only at hcount hpost hsound
+  have hsub := rootKeys_sub_of_closed (ft := ft) (ks := ks) (C := C)
+    (fun g hg e he => hpost.2 g hg (by simp) e he) ((ft.length + 1) * (D + 1) + 1) sels hpost.1
+  match ks, hcount with
+  | [k0], _ =>
+    have hall : ∀ x ∈ Valid.rootKeys ft ((ft.length + 1) * (D + 1) + 1) sels, x = k0 := by
+      intro x hx; simpa using hsub x hx
+    have hne : Valid.rootKeys ft ((ft.length + 1) * (D + 1) + 1) sels ≠ [] := by
+      intro h
+      have := hsound k0 (by simp)
+      rw [h] at this
+      simp at this
+    rw [eraseDups_const _ hall hne]
+    rfl
+
+/-! ## (d) assembly -/
+
+theorem nodup_map_inj {α β} (g : α → β) : ∀ (l : List α), (l.map g).Nodup → ∀ a ∈ l, ∀ b ∈ l, g a = g b → a = b
+  | [], _, a, ha, _, _, _ => by simp at ha
+  | x :: l, hnd, a, ha, b, hb, hg => by
+    rw [List.map_cons, List.nodup_cons] at hnd
+    rcases List.mem_cons.mp ha with ha | ha <;> rcases List.mem_cons.mp hb with hb | hb
+    · rw [ha, hb]
+    · exact absurd (List.mem_map.mpr ⟨b, hb, by rw [← hg, ha]⟩) hnd.1
+    · exact absurd (List.mem_map.mpr ⟨a, ha, by rw [hg, hb]⟩) hnd.1
+    · exact nodup_map_inj g l hnd.2 a ha b hb hg
+
+theorem fragTable_names (d : QDoc) : (Valid.fragTable d).map (·.1) = Valid.fragNames d := by
+  induction d with
+  | nil => rfl
+  | cons x d ih =>
+    cases x <;> simp_all [Valid.fragTable, Valid.fragNames]
+
+theorem mem_fragTable {d : QDoc} {e : String × String × List QSel} (h : e ∈ Valid.fragTable d) :
+    QDef.frag e.1 e.2.1 e.2.2 ∈ d := by
+  unfold Valid.fragTable at h
+  rw [List.mem_filterMap] at h
+  obtain ⟨x, hx, hxe⟩ := h
+  cases x with
+  | frag n on sels => simp at hxe; subst hxe; exact hx
+  | op => simp at hxe
+  | selset => simp at hxe
+
+theorem nodupStrings_iff : ∀ (l : List String), Valid.nodupStrings l = true ↔ l.Nodup
+  | [] => by simp [Valid.nodupStrings]
+  | x :: xs => by
+    unfold Valid.nodupStrings
+    rw [List.nodup_cons, Bool.and_eq_true, nodupStrings_iff xs]
+    simp
+
+theorem resolve_inv {s : Schema} {d : QDoc} {qF : Query} (h : resolve s d = .ok qF) :
+    ∃ q0, createRoots s d {} = .ok q0 ∧ d.foldlM (resolveDef s) q0 = .ok qF ∧
+      validateTypenamePresence s qF = .ok () ∧ validateSubscriptions qF = .ok () ∧
+      validateTypeConditions s qF = .ok () := by
+  unfold resolve at h
+  obtain ⟨q0, h0, h⟩ := bind_ok h
+  obtain ⟨q1, h1, h⟩ := bind_ok h
+  obtain ⟨_, h2, h⟩ := bind_ok h
+  obtain ⟨_, h3, h⟩ := bind_ok h
+  obtain ⟨_, h4, h⟩ := bind_ok h
+  simp only [pure, Except.pure, Except.ok.injEq] at h
+  subst h
+  exact ⟨q0, h0, h1, h2, h3, h4⟩
+
+/-- everything the first two phases of `resolve` establish, stated on the final query -/
+structure Resolved (s : Schema) (d : QDoc) (qF : Query) : Prop where
+  fnodup : (Valid.fragNames d).Nodup
+  onodup : (Valid.opNames d).Nodup
+  noselset : ∀ sels, QDef.selset sels ∉ d
+  table : TableOk s (ftff (Valid.fragTable d)) (Valid.fragTable d) qF
+  frag : ∀ n on sels, QDef.frag n on sels ∈ d → ∃ (t : TypeId) (id : Nat) (rs : List Sel), s.findType on = some t ∧
+    qF.fragments[id]? = some ({ name := n, on := t, sels := rs } : RFragment) ∧
+    CorrL s (ftff (Valid.fragTable d)) t sels rs ∧ (Valid.isComposite t = false → sels = [])
+  op : ∀ kind name vars sels, QDef.op kind name vars sels ∈ d → ∃ (n : String) (root id : Nat) (rs : List Sel), name = some n ∧
+    Valid.rootOf s kind = some root ∧ (kind = .subscription → sels.length = 1) ∧
+    qF.operations[id]? = some ({ name := n, kind := kind, objectId := root, sels := rs } : ROperation) ∧
+    CorrL s (ftff (Valid.fragTable d)) (.object root) sels rs
+
+theorem resolved_of_phases {s : Schema} {d : QDoc} {q0 qF : Query} (h0 : createRoots s d {} = .ok q0)
+    (h1 : d.foldlM (resolveDef s) q0 = .ok qF) : Resolved s d qF := by
+  have hr := createRoots_ok s d {} q0 h0
+  have hfn : fnames q0 = Valid.fragNames d := by simpa [fnames] using hr.fnames
+  have hon : onames q0 = Valid.opNames d := by simpa [onames] using hr.onames
+  have hfnd : (fnames q0).Nodup := hr.fnodup (by simp [fnames])
+  have hond : (onames q0).Nodup := hr.onodup (by simp [onames])
+  have hf := fold_ok s d q0 qF h1 (hfn ▸ hfnd) (hon ▸ hond)
+  have hff : ffOf (fnames q0) = ftff (Valid.fragTable d) := by
+    unfold ftff; rw [fragTable_names, hfn]
+  -- final shape of a fragment
+  have hfrag : ∀ n on sels, QDef.frag n on sels ∈ d → ∃ t id rs, s.findType on = some t ∧
+      ffOf (fnames q0) n = some id ∧
+      qF.fragments[id]? = some ({ name := n, on := t, sels := rs } : RFragment) ∧
+      CorrL s (ffOf (fnames q0)) t sels rs ∧ (Valid.isComposite t = false → sels = []) := by
+    intro n on sels hm
+    obtain ⟨t, id, f0, rs, ht, hid, hf0, hfF, hcorr, hleaf⟩ := hf.frag n on sels hm
+    obtain ⟨t', ht', hmem⟩ := hr.frag n on sels hm
+    rw [ht] at ht'; cases ht'
+    have hname : f0.name = n := by
+      have := ffOf_some hid
+      simp only [fnames, List.getElem?_map, hf0, Option.map_some, Option.some.injEq] at this
+      exact this
+    have hf0eq : f0 = { name := n, on := t, sels := [] } :=
+      nodup_map_inj (fun f : RFragment => f.name) q0.fragments hfnd f0 (List.mem_of_getElem? hf0) _ hmem hname
+    subst hf0eq
+    exact ⟨t, id, rs, ht, hid, by simpa using hfF, hcorr, hleaf⟩
+  have hop : ∀ kind name vars sels, QDef.op kind name vars sels ∈ d → ∃ (n : String) (root id : Nat) (rs : List Sel), name = some n ∧
+      Valid.rootOf s kind = some root ∧ (kind = .subscription → sels.length = 1) ∧
+      qF.operations[id]? = some ({ name := n, kind := kind, objectId := root, sels := rs } : ROperation) ∧
+      CorrL s (ffOf (fnames q0)) (.object root) sels rs := by
+    intro kind name vars sels hm
+    obtain ⟨n, root, o, id, op0, rs, hn, hroot, ho, hid, hop0, hopF, hcorr⟩ := hf.op kind name vars sels hm
+    obtain ⟨n', root', hn', hroot', hsub, hmem⟩ := hr.op kind name vars sels hm
+    rw [hn] at hn'; cases hn'
+    rw [hroot] at hroot'; cases hroot'
+    have hname : op0.name = n := by
+      have := ffOf_some hid
+      simp only [onames, List.getElem?_map, hop0, Option.map_some, Option.some.injEq] at this
+      exact this
+    have hopeq : op0 = { name := n, kind := kind, objectId := root, sels := [] } :=
+      nodup_map_inj (fun f : ROperation => f.name) q0.operations hond op0 (List.mem_of_getElem? hop0) _ hmem hname
+    subst hopeq
+    exact ⟨n, root, id, rs, hn, hroot, hsub, by simpa using hopF, hcorr⟩
+  refine ⟨hfn ▸ hfnd, hon ▸ hond, hr.noselset, ⟨?_, ?_⟩, ?_, ?_⟩
+  · have : (fnames qF).length = (Valid.fragNames d).length := by rw [hf.fnames_eq, hfn]
+    rw [← fragTable_names] at this
+    simpa [fnames] using this
+  · intro n fid hffn
+    obtain ⟨e, he, hen, hfind⟩ := ftff_some hffn
+    obtain ⟨t, id, rs, ht, hid, hfF, hcorr, _⟩ := hfrag e.1 e.2.1 e.2.2 (mem_fragTable (List.mem_of_getElem? he))
+    rw [hff, hen, hffn] at hid
+    cases hid
+    rw [hff] at hcorr
+    exact ⟨_, e.2.1, e.2.2, hfF, hfind, ht, hcorr⟩
+  · intro n on sels hm
+    obtain ⟨t, id, rs, ht, _, hfF, hcorr, hleaf⟩ := hfrag n on sels hm
+    rw [hff] at hcorr
+    exact ⟨t, id, rs, ht, hfF, hcorr, hleaf⟩
+  · intro kind name vars sels hm
+    obtain ⟨n, root, id, rs, h1, h2, h3, h4, h5⟩ := hop kind name vars sels hm
+    rw [hff] at h5
+    exact ⟨n, root, id, rs, h1, h2, h3, h4, h5⟩
+
+theorem docDepth_ge {d : QDoc} : ∀ x ∈ d, (match x with
+    | .op _ _ _ sels => Valid.qselsDepth sels
+    | .selset sels => Valid.qselsDepth sels
+    | .frag _ _ sels => Valid.qselsDepth sels) ≤ Valid.docDepth d := by
+  intro x hx
+  unfold Valid.docDepth
+  refine (foldl_max_ge _ 0).2 _ ?_
+  rw [List.mem_map]
+  exact ⟨x, hx, by cases x <;> rfl⟩
+
+theorem depthFuel_eq (q : Query) : ∃ dq, depthFuel q = (q.fragments.length + 1) * (dq + 2) + 1 ∧
+    (∀ f ∈ q.fragments, selsDepth' f.sels ≤ dq) ∧ (∀ o ∈ q.operations, selsDepth' o.sels ≤ dq) := by
+  refine ⟨_, rfl, ?_, ?_⟩
+  · intro f hf
+    exact (foldl_max_ge _ 0).2 _ (List.mem_append_left _ (List.mem_map.mpr ⟨f, hf, rfl⟩))
+  · intro o ho
+    exact (foldl_max_ge _ 0).2 _ (List.mem_append_right _ (List.mem_map.mpr ⟨o, ho, rfl⟩))
+
+/-- schema well-formedness needed by the proof, as a decidable check: union members are object types -/
+def SchemaOk (s : Schema) : Bool := s.unions.all fun u => u.variants.all fun v => v.asObject?.isSome
+
+theorem unionsOfObjects_of_schemaOk {s : Schema} (h : SchemaOk s = true) : C06.UnionsOfObjects s := by
+  intro u hu v hv
+  unfold SchemaOk at h
+  rw [List.all_eq_true] at h
+  have := h u hu
+  rw [List.all_eq_true] at this
+  have := this v hv
+  cases v <;> simp_all [TypeId.asObject?]
+
+theorem validDef_of_resolved {s : Schema} {d : QDoc} {qF : Query} (hs : C06.UnionsOfObjects s)
+    (hR : Resolved s d qF) (h2 : validateTypenamePresence s qF = .ok ())
+    (h3 : validateSubscriptions qF = .ok ()) (h4 : validateTypeConditions s qF = .ok ()) :
+    ∀ x ∈ d, Valid.validDef s (Valid.fragTable d) false (Valid.docDepth d) x = true := by
+  obtain ⟨t1, t2, t3⟩ := validateTypenamePresence_ok h2
+  obtain ⟨c1, c2⟩ := validateTypeConditions_ok h4
+  have s1 := validateSubscriptions_ok h3
+  intro x hx
+  cases x with
+  | selset sels => exact absurd hx (hR.noselset sels)
+  | frag n on sels =>
+    obtain ⟨t, id, rs, ht, hfF, hcorr, hleaf⟩ := hR.frag n on sels hx
+    have hmem := List.mem_of_getElem? hfF
+    unfold Valid.validDef
+    simp only [ht, Bool.and_eq_true, Bool.or_eq_true, Bool.not_eq_true']
+    constructor
+    · cases hcomp : Valid.isComposite t with
+      | false => rw [hleaf hcomp]; unfold Valid.validSels; rfl
+      | true => exact validSels_of hs hR.table sels t rs hcorr hcomp (c1 _ hmem) (t2 _ hmem)
+    · cases ha : t.isAbstract with
+      | false => exact Or.inl rfl
+      | true =>
+        right
+        have := t1 _ hmem ha
+        unfold containsTypename at this
+        rw [hR.table.len] at this
+        exact hasTypename_of_contains hR.table _ _ _ _ _ _ hcorr this
+  | op kind name vars sels =>
+    obtain ⟨n, root, id, rs, rfl, hroot, hsub, hoF, hcorr⟩ := hR.op kind name vars sels hx
+    have hmem := List.mem_of_getElem? hoF
+    unfold Valid.validDef
+    simp only [hroot, Bool.and_eq_true, Bool.or_eq_true]
+    constructor
+    · exact validSels_of hs hR.table sels _ rs hcorr rfl (c2 _ hmem) (t3 _ hmem)
+    · cases kind with
+      | query => left; rfl
+      | mutation => left; rfl
+      | subscription =>
+        right
+        have hcount := s1 _ hmem rfl
+        obtain ⟨dq, hfuel, hdf, hdo⟩ := depthFuel_eq qF
+        rw [hfuel, hR.table.len] at hcount
+        simp only at hcount
+        have hnd : ((Valid.fragTable d).map (·.1)).Nodup := by rw [fragTable_names]; exact hR.fnodup
+        have hdq : ∀ e ∈ Valid.fragTable d, Valid.qselsDepth e.2.2 ≤ dq := by
+          intro e he
+          obtain ⟨i, hi⟩ := List.getElem?_of_mem he
+          have hff : ftff (Valid.fragTable d) e.1 = some i :=
+            ffOf_of_nodup hnd (by rw [List.getElem?_map, hi]; rfl)
+          obtain ⟨f, e', hf, he', _, hcf⟩ := table_frag hR.table hff
+          rw [hi] at he'; cases he'
+          rw [← corrL_depth _ _ _ hcf]
+          exact hdf f (List.mem_of_getElem? hf)
+        have hdq' : Valid.qselsDepth sels ≤ dq := by
+          rw [← corrL_depth _ _ _ hcorr]
+          exact hdo _ hmem
+        have hD : ∀ e ∈ Valid.fragTable d, Valid.qselsDepth e.2.2 ≤ Valid.docDepth d :=
+          fun e he => docDepth_ge _ (mem_fragTable he)
+        have hD' : Valid.qselsDepth sels ≤ Valid.docDepth d := docDepth_ge _ hx
+        have := sub_keys hR.table hcorr hdq hdq' hD hD' hcount
+        simpa using this
+
+/-- **C06, main soundness theorem** (for `strict = false`, i.e. the rule catalogue without the
+    "composite field needs a sub-selection" rule, which the code does not enforce — known finding
+    `C06-no-selection`): whatever `resolve` accepts is valid by the specification. -/
+theorem resolve_sound_partial {s : Schema} {d : QDoc} {q : Query} (hs : SchemaOk s = true)
+    (h : resolve s d = .ok q) : Valid.validDoc s false d = true := by
+  obtain ⟨q0, h0, h1, h2, h3, h4⟩ := resolve_inv h
+  have hR := resolved_of_phases h0 h1
+  unfold Valid.validDoc
+  simp only [Bool.and_eq_true, List.all_eq_true]
+  exact ⟨⟨(nodupStrings_iff _).mpr hR.onodup, (nodupStrings_iff _).mpr hR.fnodup⟩,
+    validDef_of_resolved (unionsOfObjects_of_schemaOk hs) hR h2 h3 h4⟩
+
+/-! ## named layers and corollaries -/
+
+/-- **Layer (a), structural soundness.**  If resolution of a selection set against the type `t`
+    succeeds, the written selection `sels` and the resolved one `rs` are in the correspondence `CorrL`:
+    every field exists on its parent type (`Valid.lookupField`) and is stored under the id the
+    resolved tree carries, leaf-typed fields and `__typename` have no sub-selection, every spread names
+    a fragment of the query (`q.findFragment`), every inline fragment has a type condition that the
+    schema knows, and a non-composite `t` admits the empty selection only. -/
+theorem resolve_struct_sound {s : Schema} {q : Query} {t : TypeId} {sels : List QSel} {rs : List Sel}
+    (h : resolveSelection s q t sels = .ok rs) :
+    CorrL s q.findFragment t sels rs ∧ (Valid.isComposite t = false → sels = []) :=
+  resolveSelection_corr h
+
+/-- the same for the operation roots (`resolve_object_selection` on an object type) -/
+theorem resolve_struct_sound_object {s : Schema} {q : Query} {oid : Nat} {o : StoredObject}
+    {sels : List QSel} {rs : List Sel} (ho : s.objects[oid]? = some o)
+    (h : resolveObjectSels s q o.name o.fields sels = .ok rs) :
+    CorrL s q.findFragment (.object oid) sels rs := by
+  rw [← fieldsOf_object ho] at h
+  exact objSels_corr s q _ _ sels rs h
+
+/-- `create_roots` accepts a document only if its fragment names and its operation names are
+    pairwise distinct, and the tables it builds list exactly those names, in document order -/
+theorem createRoots_names {s : Schema} {d : QDoc} {q : Query} (h : createRoots s d {} = .ok q) :
+    q.fragments.map (·.name) = Valid.fragNames d ∧ (Valid.fragNames d).Nodup ∧
+    q.operations.map (·.name) = Valid.opNames d ∧ (Valid.opNames d).Nodup := by
+  have hr := createRoots_ok s d {} q h
+  have hfn : fnames q = Valid.fragNames d := by simpa [fnames] using hr.fnames
+  have hon : onames q = Valid.opNames d := by simpa [onames] using hr.onames
+  exact ⟨hfn, hfn ▸ hr.fnodup (by simp [fnames]), hon, hon ▸ hr.onodup (by simp [onames])⟩
+
+/-- accepted documents have unique fragment and operation names (GraphQL §5.5.1.1, §5.2.1.1) -/
+theorem resolve_names_unique {s : Schema} {d : QDoc} {q : Query} (h : resolve s d = .ok q) :
+    (Valid.fragNames d).Nodup ∧ (Valid.opNames d).Nodup := by
+  obtain ⟨q0, h0, _⟩ := resolve_inv h
+  have := createRoots_names h0
+  exact ⟨this.2.1, this.2.2.2⟩
+
+/-- the same theorem with the well-formedness hypothesis in its propositional form -/
+theorem resolve_sound_partial' {s : Schema} {d : QDoc} {q : Query} (hs : C06.UnionsOfObjects s)
+    (h : resolve s d = .ok q) : Valid.validDoc s false d = true := by
+  obtain ⟨q0, h0, h1, h2, h3, h4⟩ := resolve_inv h
+  have hR := resolved_of_phases h0 h1
+  unfold Valid.validDoc
+  simp only [Bool.and_eq_true, List.all_eq_true]
+  exact ⟨⟨(nodupStrings_iff _).mpr hR.onodup, (nodupStrings_iff _).mpr hR.fnodup⟩,
+    validDef_of_resolved hs hR h2 h3 h4⟩
+
+/-- contrapositive, as the property is worded: an operation the schema cannot answer (invalid by
+    the specification) is rejected -/
+theorem invalid_rejected {s : Schema} {d : QDoc} (hs : SchemaOk s = true)
+    (h : Valid.validDoc s false d = false) : ∃ e, resolve s d = .error e := by
+  cases hr : resolve s d with
+  | error e => exact ⟨e, rfl⟩
+  | ok q => rw [resolve_sound_partial hs hr] at h; cases h
+
+/-! ## the hypothesis: a non-trivial instance, and why it cannot be dropped -/
+
+/-- a schema with an interface, a union and all three root types -/
+def exampleSdl : SdlDoc :=
+  [.interface "Node" [{ name := "id", ty := .nonNull (.named "ID"), directives := [] }],
+   .object "Dog" ["Node"] [{ name := "id", ty := .nonNull (.named "ID"), directives := [] },
+                           { name := "name", ty := .named "String", directives := [] }],
+   .object "Cat" ["Node"] [{ name := "id", ty := .nonNull (.named "ID"), directives := [] }],
+   .union "Pet" ["Dog", "Cat"],
+   .object "Query" [] [{ name := "pet", ty := .named "Pet", directives := [] },
+                       { name := "node", ty := .named "Node", directives := [] }],
+   .object "Mutation" [] [{ name := "m", ty := .named "String", directives := [] }],
+   .object "Subscription" [] [{ name := "s", ty := .named "Pet", directives := [] }]]
+
+/-- fragments on a union and on the subscription root, a subscription whose single root field is
+    reached through a spread -/
+def exampleDoc : QDoc :=
+  [.frag "P" "Pet" [.field none "__typename" [], .inline (some "Dog") [.field none "name" []]],
+   .frag "S" "Subscription" [.field (some "x") "s" [.spread "P"]],
+   .op .query (some "Q") [] [.field none "pet" [.spread "P"],
+     .field none "node" [.field none "__typename" [], .field none "id" []]],
+   .op .subscription (some "Sub") [] [.spread "S"]]
+
+def isOk {α} : Outcome α → Bool | .ok _ => true | .error _ => false
+
+/-- `SchemaOk` holds of the schema built from that SDL; the document is accepted and valid -/
+example : (match Sdl.fromSdl exampleSdl with
+    | .ok s => SchemaOk s && isOk (resolve s exampleDoc) && Valid.validDoc s false exampleDoc
+    | .error _ => false) = true := by decide +kernel
+
+/-- a hand-made schema (not obtainable from well-formed SDL) whose union lists a scalar as a member -/
+def badSchema : Schema :=
+  { objects := [{ name := "Q", fields := [0], implements := [] }],
+    fields := [{ name := "u", ty := { id := .union 0, quals := [] }, parent := .object 0, deprecation := none }],
+    unions := [{ name := "U", variants := [.scalar 0] }],
+    scalars := ["S"],
+    names := [("Q", .object 0), ("S", .scalar 0), ("U", .union 0)],
+    queryType := some 0 }
+
+/-- `query Q { u { __typename ... on S { } } }` -/
+def badDoc : QDoc :=
+  [.op .query (some "Q") [] [.field none "u" [.field none "__typename" [], .inline (some "S") []]]]
+
+/-- without `SchemaOk` the theorem is false: the union arm of the type-condition check trusts the
+    member list, so an inline fragment on the scalar member is accepted -/
+theorem schemaOk_needed :
+    SchemaOk badSchema = false ∧ isOk (resolve badSchema badDoc) = true ∧
+    Valid.validDoc badSchema false badDoc = false := by decide +kernel
+
+/-! ## regression: the three witnesses found while proving (see the file header) -/
+
+def witnessSdl : SdlDoc :=
+  [.object "A" [] [{ name := "a", ty := .named "String", directives := [] }],
+   .object "B" [] [{ name := "b", ty := .named "String", directives := [] }],
+   .object "Query" [] [{ name := "a", ty := .named "A", directives := [] }],
+   .object "Mutation" [] [{ name := "m", ty := .named "String", directives := [] }],
+   .object "Subscription" [] [{ name := "s", ty := .named "String", directives := [] }]]
+
+/-- `fragment F on A { a }  fragment F on B { ... on A { a } }` -/
+def dupFragDoc : QDoc :=
+  [.frag "F" "A" [.field none "a" []], .frag "F" "B" [.inline (some "A") [.field none "a" []]]]
+/-- `query Q { a }  mutation Q { ... on Query { a } }` -/
+def dupOpDoc : QDoc :=
+  [.op .query (some "Q") [] [.field none "a" []],
+   .op .mutation (some "Q") [] [.inline (some "Query") [.field none "a" []]]]
+def nestInline : Nat → List QSel
+  | 0 => [.field none "s" []]
+  | n+1 => [.inline (some "Subscription") (nestInline n)]
+/-- `subscription S { ... on Subscription { ... 64 levels ... { s } } }` -/
+def deepSubDoc : QDoc := [.op .subscription (some "S") [] (nestInline 64)]
+
+/-- after the repair of `create_roots` both duplicate-name documents are rejected (and invalid);
+    with the depth-dependent fuel of `Valid.rootKeys` the deep subscription is accepted and valid -/
+example : (match Sdl.fromSdl witnessSdl with
+    | .ok s =>
+      !isOk (resolve s dupFragDoc) && !Valid.validDoc s false dupFragDoc &&
+      !isOk (resolve s dupOpDoc) && !Valid.validDoc s false dupOpDoc &&
+      isOk (resolve s deepSubDoc) && Valid.validDoc s false deepSubDoc
+    | .error _ => false) = true := by decide +kernel
 
 end C06Sound
 end GqlVerif
